@@ -158,6 +158,14 @@ class Interp:
             yield "fall", None, st
 
     def store(self, target, v, st: State, fi: FuncInfo):
+        if isinstance(target, (ast.Tuple, ast.List)):
+            if isinstance(v, tuple) and v and v[0] == "tuple" and len(v[1]) == len(target.elts):
+                for t, x in zip(target.elts, v[1]):
+                    self.store(t, x, st, fi)
+            else:
+                for t in target.elts:
+                    self.store(t, ("expr", "<component of %s>" % (v[1] if isinstance(v, tuple) and len(v) > 1 and isinstance(v[1], str) else "a value")), st, fi)
+            return
         if isinstance(target, ast.Name):
             st.env[target.id] = v
             return
@@ -223,6 +231,13 @@ class Interp:
                 else:
                     out.append((("expr", src(e)), s))
             return out
+        if isinstance(e, ast.List) and not e.elts:
+            return [(("stack", ()), st)]  # an empty per-instance store (saved values, pushed by __enter__ and popped by __exit__)
+        if isinstance(e, ast.Tuple):
+            results = [([], st)]
+            for el in e.elts:
+                results = [(vals + [v], s2) for vals, s in results for v, s2 in self.evs(el, s, fi, depth)]
+            return [(("tuple", tuple(vals)), s) for vals, s in results]
         if isinstance(e, ast.IfExp):
             out = []
             for g, s in self.truths(e.test, st, fi, depth):
@@ -300,6 +315,22 @@ class Interp:
             v = self.ev_pure(call.args[0], st)
             if v == ("self",):
                 return [(("cls",), st)]
+        if isinstance(f, ast.Attribute) and f.attr in ("append", "pop") and isinstance(f.value, ast.Attribute) and self.ev_pure(f.value.value, st) == ("self",):
+            attr = f.value.attr
+            cur = st.inst.get(attr, self.inst_env.get(attr))
+            if isinstance(cur, tuple) and cur and cur[0] == "stack":
+                if f.attr == "append" and len(call.args) == 1:
+                    for v, s in self.evs(call.args[0], st, fi, depth):
+                        s2 = s.copy()
+                        s2.inst[attr] = ("stack", cur[1] + (v,))
+                        out.append((("const", None), s2))
+                    return out
+                if f.attr == "pop" and not call.args:
+                    s2 = st.copy()
+                    if cur[1]:
+                        s2.inst[attr] = ("stack", cur[1][:-1])
+                        return [(_popped(cur[1][-1]), s2)]
+                    return [(("expr", "<pop of an empty store>"), s2)]
         if isinstance(f, ast.Attribute):
             for b, s in self.evs(f.value, st, fi, depth):
                 if b == ("cls",) or b == ("self",):
@@ -398,6 +429,16 @@ def show(v) -> str:
     if v[0] == "new":
         return "%s(...)" % v[1][1]
     return str(v[1]) if len(v) > 1 else v[0]
+
+
+def _popped(v):
+    """a value taken back from the per-instance store: a field read of phase 'enter' becomes 'enter-stack' (saved per entry)"""
+    if isinstance(v, tuple) and v:
+        if v[0] == "field" and len(v) == 3 and v[2] == "enter":
+            return ("field", v[1], "enter-stack")
+        if v[0] == "tuple":
+            return ("tuple", tuple(_popped(x) for x in v[1]))
+    return v
 
 
 def subst_inst(v, inst_env):
@@ -649,16 +690,20 @@ def check_pairing(idx: ProgramIndex, rep: Report, m: SettingModel):
             ws = [ev for ev in p.state.events if ev[0] == "write" and ev[1] == f]
             if ws:
                 v = subst_inst(ws[-1][2], m.exit_env)
-                if v == captured or v == ("field", f, "enter"):
+                accepted = (captured, ("field", f, "enter"), ("field", f, "enter-stack"))
+                if v in accepted:
                     phases.add(v[2])
                     continue
-                if v[0] == "phi" and all(x in (captured, ("field", f, "enter")) for x in v[1]):
+                if v[0] == "phi" and all(x in accepted for x in v[1]):
                     phases |= {x[2] for x in v[1]}
                     continue
                 # reset idiom: enter and exit both store the same constant, which is also the class default
                 enter_vals = {subst_inst(ev[2], m.inst_env) for ev in written[f]}
                 if v[0] == "const" and enter_vals == {v} and default is not None and isinstance(default[1], ast.Constant) and default[1].value == v[1]:
+                    # reset idiom: correct only if nothing else ever writes the field - a field that is filled while a block is open
+                    # (a lazily created cache) loses the enclosing block's value when a nested block exits
                     reset_idiom = True
+                    problems.append("enter and exit both reset %s to %s instead of restoring what was visible before: a nested block wipes the value the enclosing block holds by then (after `with S(True): ...; with S(True): pass` the outer block continues with %s = %s)" % (f, show(v), f, show(v)))
                     continue
                 problems.append("restores %s instead of the value captured from %s before the block wrote it" % (show(v), f))
             else:
@@ -1031,7 +1076,7 @@ def check_capture_phase(idx: ProgramIndex, rep: Report, models):
     """`on exit the previously visible value is restored`: previously visible when the block was ENTERED.  An instance that reads the
     global in its constructor restores the value of construction time: `inner = S(100)` created before `with S(5): with inner: ...` puts
     the default back while the outer block is still open (and an instance used for a second block restores the value of its first)."""
-    rep.rule("C20-9", "the value __exit__ restores is read from the global field in __enter__ (what is visible when the block is entered), not in the constructor")
+    rep.rule("C20-9", "the value __exit__ restores is read from the global field in __enter__ (what is visible when the block is entered, not when the object was created) and saved per entry (pushed / popped), so that an object entered twice restores both times")
     n = 0
     third_party = []
     for key in sorted(models):
@@ -1045,9 +1090,13 @@ def check_capture_phase(idx: ProgramIndex, rep: Report, models):
                 if "init" in phases:
                     third_party.append("%s.%s" % (C.qualname, f))
                 continue
-            ok = phases == {"enter"}
+            ok = phases == {"enter-stack"}
+            if phases == {"enter"}:
+                rep.add("C20-9", "%s:%s:%s" % (C.module.name, C.qualname, f), C.where, False,
+                        "%s is saved by __enter__ into a single slot of the object: entering the same object again while its block is open (`with c: with c: ...`) overwrites the saved value, and after both exits the block's value stays in effect outside all blocks - __enter__ has to push, __exit__ to pop" % f, {"phases": sorted(phases)})
+                continue
             rep.add("C20-9", "%s:%s:%s" % (C.module.name, C.qualname, f), C.where, ok,
-                    "captured in __enter__" if ok else
+                    "saved per entry in __enter__, taken back by __exit__" if ok else
                     "%s is restored from a value read in the constructor: an instance created before an enclosing block of the same setting was entered (or used for a second block) restores past that block - inside `with S(5): with inner:` the value after `inner` exits is the one of construction time, not 5" % f, {"phases": sorted(phases)})
     rep.add("C20-9", "linear_operator.settings:<re-exported settings>[capture at construction]", "linear_operator/settings.py", not third_party,
             "the re-exported settings capture at entry" if not third_party else
